@@ -12,12 +12,22 @@ F = "filippo.io/edwards25519/field."
 E = "filippo.io/edwards25519."
 EM = "(*filippo.io/edwards25519/field.Element)."
 P = 2**255 - 19
+L_SC = 2**252 + 27742317777372353535851937790883648493
 
 
 def _eq(self, path, a, b):
     if isinstance(a, Abs) and isinstance(b, Abs):
         if a.zero_limbs and b.zero_limbs:
             return True
+        if a.tag in ("mont", "raw") or b.tag in ("mont", "raw"):
+            # scalars (scalarmode): the limb arrays are saturated and reduced, so limb equality is equality of the
+            # values - modulo l for Montgomery-domain cells, whose form is only known up to a multiple of l
+            from .dom_lf import LF, LFCond
+            d = LF.of(a.v) - LF.of(b.v)
+            tag = a.tag or b.tag
+            if d.is_const():
+                return d.c % L_SC == 0 if tag == "mont" else d.c == 0
+            return LFCond("modeq", d, [L_SC]) if tag == "mont" else LFCond("==", d)
         if a.zero_limbs or b.zero_limbs:
             # limb-level comparison with the Go zero value: symbolic elements of *valid points* are never
             # (x limbs all zero AND y limbs all zero); the caller (checkInitialized) only needs the conjunction
